@@ -541,3 +541,13 @@ func TestC11Sched(t *testing.T) {
 		"C15/attrquery-response-mixed-up": "C11/issuer-differs-from-entityid:concurrent", "C15/logout-response-mixed-up": "C11/issuer-differs-from-entityid:concurrent",
 		"C15/metadata-reply": "C11/metadata-not-well-formed", "C15/panic": "C11/panic"}, false)
 }
+
+// TestC04Sched: what is signed and sent while other sessions are being served - also to user agents that read slowly, whose
+// replies are still being written when the next message is built - verifies like anything else.
+func TestC04Sched(t *testing.T) {
+	schedUnder(t, "C04", c04Rule, []string{"cb-done-body", "cb-done-body", "cb-done-post", "cb-done-redirect", "attrquery", "attrquery", "metadata"}, map[string]string{
+		"C15/assertion-signature-does-not-verify": "C04/signature-does-not-verify:concurrent",
+		"C15/body-reply":                          "C04/artefact-not-well-formed:concurrent", "C15/body-reply-mixed-up": "C04/artefact-not-well-formed:concurrent",
+		"C15/callback-reply-not-well-formed": "C04/artefact-not-well-formed:concurrent", "C15/attrquery-reply": "C04/artefact-not-well-formed:concurrent",
+		"C15/metadata-reply": "C04/artefact-not-well-formed:concurrent", "C15/panic": "C04/panic"}, true)
+}
